@@ -274,10 +274,13 @@ def mk_model(s):
                                            B_coef=s["B"], C_coef=s["C"], D_coef=s["D"], E_coef=s["E"])
     if k == "snell":
         return spectroscopy.Snell3D()
+    gd = s.get("gd")
+    if k in ("grating_w", "grating_a") and int(gd) % 3 == 0:
+        gd = gd * u.Unit("1/mm")          # a ruling density with its unit, as instrument teams quote it (lines per mm)
     if k == "grating_w":
-        return spectroscopy.WavelengthFromGratingEquation(groove_density=s["gd"], spectral_order=s["order"])
+        return spectroscopy.WavelengthFromGratingEquation(groove_density=gd, spectral_order=s["order"])
     if k == "grating_a":
-        return spectroscopy.AnglesFromGratingEquation3D(groove_density=s["gd"], spectral_order=s["order"])
+        return spectroscopy.AnglesFromGratingEquation3D(groove_density=gd, spectral_order=s["order"])
     if k == "dircos":
         return geometry.ToDirectionCosines() if s["to"] else geometry.FromDirectionCosines()
     if k == "sphcart":
@@ -513,8 +516,17 @@ def _impl(case):
             a, b = _yaml_part(data), _yaml_part(data2)
             i = next((k for k, (x, y) in enumerate(zip(a, b)) if x != y), min(len(a), len(b)))
             res["rewrite_diff"] = "%r vs %r" % (a[max(0, i - 60):i + 60], b[max(0, i - 60):i + 60])
-        res["deepcopy"] = fields(copy.deepcopy(f))
-        res["pickle"] = fields(pickle.loads(pickle.dumps(f)))
+        # (the copies are taken from a frame that has been in use: what the high-level interface asks a frame for must not stick to it)
+        for attr in ("_world_axis_object_components", "_world_axis_object_classes"):
+            try:
+                getattr(f, attr, None)
+            except Exception:
+                pass
+        for nm, cp in (("deepcopy", copy.deepcopy), ("pickle", lambda o: pickle.loads(pickle.dumps(o)))):
+            try:
+                res[nm] = fields(cp(f))
+            except Exception as e:
+                res[nm] = {"err": type(e).__name__ + ":" + str(e)[:100]}
         return res
     if case["what"] == "model":
         m = mk_model(case["spec"])
@@ -574,6 +586,12 @@ def _impl(case):
         a, b = _yaml_part(data), _yaml_part(data2)
         i = next((k for k, (x, y) in enumerate(zip(a, b)) if x != y), min(len(a), len(b)))
         res["rewrite_diff"] = "%r vs %r" % (a[max(0, i - 60):i + 60], b[max(0, i - 60):i + 60])
+    # (the copies are taken from a WCS that has been in use through the high-level interface)
+    try:
+        _ = w.world_axis_object_components, w.world_axis_object_classes
+        w.pixel_to_world(*[1.0] * w.forward_transform.n_inputs)
+    except Exception:
+        pass
     for nm, cp in (("deepcopy", copy.deepcopy), ("pickle", lambda o: pickle.loads(pickle.dumps(o)))):
         try:
             c = cp(w)
